@@ -182,6 +182,7 @@ func vhRunInspections(layout Layout, runDir string, lineNorm bool, useDSSE bool)
 }
 
 var vhSummary Metadata
+var vhStepNameArg string
 
 func vhGetSummaryLink(layout Layout, reduced map[string]Metadata, stepName string, useDSSE bool) (Metadata, error) {
 	if !vStubOn("stages") {
@@ -189,7 +190,7 @@ func vhGetSummaryLink(layout Layout, reduced map[string]Metadata, stepName strin
 	}
 	vhEvent("summary")
 	_, hasReduced := reduced["reduced"]
-	vhProv(layout.Readme == vhLayoutTag && hasReduced && stepName == "STEPNAME-ARG" && !useDSSE)
+	vhProv(layout.Readme == vhLayoutTag && hasReduced && stepName == vhStepNameArg && !useDSSE)
 	if vhFail("summary") {
 		return nil, errors.New("vh: summary")
 	}
@@ -315,12 +316,13 @@ func vhC01(a []int, twin bool) {
 	}
 	var res Metadata
 	var err error
+	vhStepNameArg = vConcStr(vPick("stepname", "", "STEPNAME-ARG"))
 	if entry == 0 {
 		vhRunDirArg = ""
-		res, err = InTotoVerify(env, keys, "LINKDIR-ARG", "STEPNAME-ARG", map[string]string{}, [][]byte{[]byte("PEM-ARG")}, true)
+		res, err = InTotoVerify(env, keys, "LINKDIR-ARG", vhStepNameArg, map[string]string{}, [][]byte{[]byte("PEM-ARG")}, true)
 	} else {
 		vhRunDirArg = "RUNDIR-ARG"
-		res, err = InTotoVerifyWithDirectory(env, keys, "LINKDIR-ARG", "RUNDIR-ARG", "STEPNAME-ARG", map[string]string{}, [][]byte{[]byte("PEM-ARG")}, true)
+		res, err = InTotoVerifyWithDirectory(env, keys, "LINKDIR-ARG", "RUNDIR-ARG", vhStepNameArg, map[string]string{}, [][]byte{[]byte("PEM-ARG")}, true)
 	}
 	vObserve("verify", err == nil, len(vhEvents))
 	if twin {
